@@ -402,7 +402,7 @@ def run_C19(ctx):
         hand = [c for c in e_cases if c["id"] in ide and c["id"].startswith("h")]
         first = sorted([c for c in hand if flag_sensitive(c)], key=lambda c: 0 if "ward)" in c.get("spec", "") else 1)   # direction annotations first
         rest = [c for c in hand if not flag_sensitive(c)]
-        ec = [dict(c, flagsets=allE) for c in (first[:16] + [c for c in e_cases if c["id"] in ide and not c["id"].startswith("h")][:6] + rest)][:24]
+        ec = [dict(c, flagsets=allE) for c in (first + [c for c in e_cases if c["id"] in ide and not c["id"].startswith("h")][:6] + rest)][:len(first) + 10]
         pp = {r["id"]: r["pp"] for r in s_usable + e_usable}
         recs = V.run_harness(ctx, "problems", sc, tag="-s19") + V.run_harness(ctx, "problems", ec, tag="-e19")
         usable = []
